@@ -192,6 +192,7 @@ pub fn two_party(case: &str, seed: u64, k: &Knobs, content: Vec<u8>) -> Scenario
         plant: vec![],
         dropper: None,
         seq_start: None,
+        preset_ids: vec![],
     }
 }
 
